@@ -62,6 +62,15 @@ class P:
         # what the object is is part of its (possibly refused) data
         return '<P%d %s>' % (self.i, getattr(self, 'id', ''))
 
+    # attributes defined by the class (a method, a property): the guard
+    # decides per object, not per class
+    def cmeth(self):
+        return self.sec
+
+    @property
+    def cprop(self):
+        return self.sec
+
 
 class Seq:
     """Custom sequence (no get / keys)."""
@@ -115,6 +124,10 @@ def guarded_class():
             if self.log is not None:
                 self.log.append(('attr', repr(inst)[:12], name))
             if name[:1] == '_' and not self.lenient:
+                raise Unauthorized(name)
+            if isinstance(inst, (str, bytes, int, float)) and \
+                    ('scalar', name) in self.deny_attr:
+                # texts and numbers are client data like any other
                 raise Unauthorized(name)
             i = getattr(inst, 'i', None) if isinstance(inst, P) else None
             if isinstance(inst, P) and (('*', name) in self.deny_attr or
@@ -290,6 +303,21 @@ def channels():
         '|<dtml-var "o.pub">]', expr=True)
     add('fmt-method', '[<dtml-var o fmt={A}>|<dtml-var "o.pub">]',
         attrs=('meth', 'secmeth', '_prv'))
+    # attributes of texts and numbers read inside expressions
+    add('expr-str-method', '[<dtml-var "o.pub.{A}()">|<dtml-var "o.pub">]',
+        kind='scalar', attrs=('strip', 'swapcase'))
+    add('expr-str-method-let', '[<dtml-let q="o.pub.{A}"><dtml-var "q()">'
+        '</dtml-let>|<dtml-var "o.pub">]', kind='scalar',
+        attrs=('strip', 'swapcase'))
+    add('expr-str-format', '[<dtml-var "\'{0}-{0}\'.{A}(o.pub)">|'
+        '<dtml-var "o.pub">]', kind='scalar', attrs=('format', 'format'))
+    add('expr-int-method', '[PUB<dtml-var "o.num.{A}()">|<dtml-var "o.pub">]',
+        kind='scalar', attrs=('bit_length', 'conjugate'))
+    add('expr-int-attr', '[PUB<dtml-var "o.num.{A}">|<dtml-var "o.pub">]',
+        kind='scalar', attrs=('real', 'numerator'))
+    add('expr-str-method-in', '[<dtml-in s><dtml-var "_[\'sequence-item\']'
+        '.pub.{A}()">;</dtml-in>]', kind='scalar',
+        attrs=('strip', 'swapcase'))
     add('in-pushed-item', '[<dtml-in s><dtml-var {A} missing="-">,'
         '<dtml-var pub>;</dtml-in>]')
     add('in-item-attr-expr', '[<dtml-in s><dtml-var "_[\'sequence-item\'].'
@@ -503,6 +531,14 @@ def check(case):
                     '%r with %s attribute %r (policy %r): outcome depends '
                     'on the refused values: %r vs %r' % (
                         ch['src'], klass, attr, policy, a, b))
+    elif klass == 'denied-scalar':
+        # the guard refuses this attribute of every text and number: the
+        # expression cannot have been evaluated
+        if a[0] != 'raise' or a != b:
+            return ('leak:%s:%s:%s' % (group, klass, mode),
+                    '%r: the guard refuses attribute %r of texts and '
+                    'numbers, yet the rendering gave %r' % (
+                        ch['src'].replace('{A}', attr), attr, a))
     else:
         # anti-vacuity: allowed data is shown
         if ch.get('ac_mediated'):
@@ -542,6 +578,16 @@ def cases():
                     if ch.get('tree') and klass == 'denied' and \
                             pol['attr'][0][0] != '*':
                         pol = dict(attr=[[1, attr], [4, attr]])
+                    if klass == 'denied' and attr == 'sec' and \
+                            not ch.get('tree'):
+                        # the same with attributes the class defines (a
+                        # method, a property) instead of instance data
+                        for cattr in ('cmeth', 'cprop'):
+                            yield dict(channel=ch['name'], attr=cattr,
+                                       policy=dict(attr=[
+                                           [w, cattr] for w, _ in
+                                           pol['attr']]),
+                                       guarded=True, klass=klass)
                     yield dict(channel=ch['name'], attr=attr, policy=pol,
                                guarded=True, klass=klass)
                     if not ch.get('tree') and not ch.get('psub') and \
@@ -563,6 +609,15 @@ def cases():
                 if klass == 'public':
                     yield dict(channel=ch['name'], attr=attr, policy={},
                                guarded=False, klass=klass)
+        elif kind == 'scalar':
+            pub, den = ch['attrs']
+            yield dict(channel=ch['name'], attr=pub, policy={},
+                       guarded=True, klass='public')
+            yield dict(channel=ch['name'], attr=pub, policy={},
+                       guarded=False, klass='public')
+            yield dict(channel=ch['name'], attr=den,
+                       policy=dict(attr=[['scalar', den]]), guarded=True,
+                       klass='denied-scalar')
         elif kind == 'item':
             seqname = ch.get('seqname', 's')
             for denied in ([], [0], [1], [2], [3], [0, 2], [1, 2, 3],
